@@ -202,16 +202,25 @@ static void step_wait(const char* op, const char* path, bool blocked)
 }
 
 // Common prologue.  Returns true if the operation must fail (fault injection).
+static bool g_fail_was_sticky = false;
+
 static bool pre(const char* op, const char* path, bool writeclass)
 {
 	if (!watched(path)) return false;
 	bool fail = false;
+	g_fail_was_sticky = false;
 	if (g_mode == SNAPSHOT && writeclass) snapshot(op, path, "before");
 	if (g_mode == STEP) step_wait(op, path, false);
 	if (g_mode == FAULT)
 	{
 		if (g_ops == g_k) { fail = true; g_fired = true; }
-		else if (g_fired && g_sticky && writeclass) fail = true;
+		else if (g_fired && g_sticky && writeclass)
+		{
+			// the disk stays full (default / ENOSPC): everything that needs space keeps failing, removing and truncating still work;
+			// EIO / EACCES (medium gone / read-only): every write-class operation keeps failing
+			bool frees = !strcmp(op, "remove") || !strcmp(op, "unlink") || !strcmp(op, "rmdir") || !strcmp(op, "ftruncate");
+			if (!(frees && (g_kind.empty() || g_kind == "ENOSPC"))) { fail = true; g_fail_was_sticky = true; }
+		}
 	}
 	if (g_mode == TRACE || g_mode == FAULT || g_mode == STEP || g_mode == SNAPSHOT)
 	{
@@ -316,6 +325,8 @@ int __wrap_fclose(FILE* f)
 	int fd = f ? fileno(f) : -1;
 	const char* path = (f && g_in_call && g_mode != OFF) ? fdpath(fd) : NULL;
 	bool fail = pre("fclose", path, true);
+	// on a full disk closing a stream with nothing pending succeeds
+	if (fail && g_fail_was_sticky && (g_kind.empty() || g_kind == "ENOSPC") && __fpending(f) == 0) fail = false;
 	if (fail)
 	{
 		__fpurge(f);
